@@ -256,6 +256,13 @@ theorem run_vis (s s' : List Frame) (toks : List Tok) (h : run s toks = .ok s') 
     obtain ⟨hv2, hn2⟩ := ih s1 h hn
     exact ⟨by rw [hv2, hv]; simp, hn2⟩
 
+/-- the children of all frames, folded bottom-first, read as the stack reads -/
+theorem flatMap_yield : ∀ rest : List Frame, yieldL (rest.flatMap (·.rkids)).reverse = stackYield rest
+  | [] => rfl
+  | g :: r => by
+    simp only [List.flatMap_cons, List.reverse_append, yieldL_append, stackYield_cons, frameYield]
+    rw [flatMap_yield r]
+
 /-- **C03 / C01 for rows**: whenever the row parser returns a tree, for ANY row of tokens (well formed or not), the leaves
 of the tree are exactly the tokens, in order, plus inserted invisible-times operators — nothing is lost, duplicated,
 reordered or invented -/
@@ -267,11 +274,14 @@ theorem parseRow_yield (toks : List Tok) (t : T) (h : parseRow toks = .ok t) : v
   obtain ⟨s1, h1, hf⟩ := bind_ok _ _ _ hf
   have hy := reduce_yield _ _ _ _ h1
   split at hf
-  · rename_i f
+  · rename_i f rest
     injection hf with hf; subst hf
     rw [close_yield]
-    have : stackYield [f] = frameYield f := by simp
-    rw [← this, hy, hv]; simp [vis]
+    have hfold : frameYield { f with rkids := f.rkids ++ rest.flatMap (·.rkids) } = stackYield (f :: rest) := by
+      simp only [frameYield, List.reverse_append, yieldL_append, stackYield_cons]
+      congr 1
+      exact flatMap_yield rest
+    rw [hfold, hy, hv]; simp [vis]
   · cases hf
 
 /-- non-vacuity and worked examples -/
